@@ -77,7 +77,7 @@ def run(tier: str, seed: int) -> Report:
         raise Machinery(f"kinds without any generated case: {sorted(set(classes) - kinds_in_cases)}")
     # ---- 3. seeded random families through the same oracle
     rnd = random.Random(seed)
-    per_kind = 25 if tier == "quick" else 1200
+    per_kind = 25 if tier == "quick" else 2500
     for k in sorted(classes):
         for _ in range(per_kind):
             cases.append({"kind": k, "f": R.rand_request_fields(rnd, k, layout[k], variants, max_groups)})
